@@ -21,6 +21,19 @@ from lib.core import cbool, cbytes, clist, cpair, vL, vN, vset
 PROPERTY = "C12"
 GEN: list = ["status"]  # translator/statusunit.py -> Gen/StatusPy.v, tied by Proofs/StatusTie.v
 RULE = (
+    "tools/COVERAGE_AUDIT.md carried out (counts of every run in coverage.input_dimensions): FIXED in every run - a "
+    "listing holding all unusual entry names (backslash, space, leading dot, Cyrillic, CJK, emoji, NFC next to its NFD "
+    "twin, a name ending in .dir, string-prefix siblings, 1 and 200 characters, case twins), the EMPTY listing's oid, a "
+    "one-file and a depth-3 directory with identical contents, x {local, base} x {shallow, expanded} x {no index, empty "
+    "index, stale pre-filled index}; the batch boundary of the per-id existence query (jobs=2, 1..5 ids); all 16 "
+    "combinations check_deleted x src_index x dest_index x shallow of compare_status; the last-hex-digit sweep; a "
+    "push / delete / re-push history in which every operation uses a NEW ObjectDBIndex instance; and an oracle-only "
+    "AUDIT stream outside the model's assumptions (protected / unprotected / corrupt-unprotected / corrupt-protected "
+    "objects, unparsable .dir objects (not JSON, not a list, bad entry) shallow / expanded / through an index, read-only "
+    "stores, ObjectDBIndexNoop, the same value under two algorithm names, a .dir object unparsable or missing on one "
+    "side of compare_status, EIO inside the existence query at the first / middle / last id). RANDOM per case - "
+    "obj_name labels on file and directory ids, jobs in {None,1,2,16}, name in {None,'md5'}, unusual names in 30% of "
+    "the worlds, re-opened index instance before 20% of the history operations. "
     "worlds: 6 file objects (per case a content variant of each is chosen so that its md5 ends with a "
     "chosen hex digit; the first 32 status cases sweep a VALID UNPROTECTED object of a local store over "
     "all 16 last digits, for file ids and for .dir ids), 2-4 random directory objects over them (shared files, duplicate entries, "
@@ -66,6 +79,18 @@ FILES = [b"alpha", b"beta", b"", b"gamma\n", b"delta\r\n", b"epsilon " * 40]
 NF = len(FILES)
 ABSENT = [b"absent-0", b"absent-1"]
 RELPATHS = ["a", "b/c", "d/e/f", "g h", "é", "z.dir/x"]
+# tools/COVERAGE_AUDIT.md, dimension 1: names inside listings (backslash, space, leading dot, Cyrillic,
+# CJK, emoji, NFC next to its NFD twin, a name ending in .dir, string-prefix siblings, 1 and 200
+# characters, a file and a directory differing only in case)
+ODD_RELPATHS = ["we\\ird.txt", "sp ace.txt", ".hidden", "кириллица.txt", "中文/文件", "\U0001f600.bin",
+                "caf\u00e9.txt", "cafe\u0301.txt", "sub.dir", "imgs", "imgs_raw", "imgs.bak", "x", "L" * 200,
+                "Data/x", "data"]
+DIMS: dict = {}
+
+
+def dim(name, k=1):
+    DIMS[name] = DIMS.get(name, 0) + k
+
 
 
 def _zz():
@@ -140,7 +165,7 @@ def gen_dirs(rng):
     dirs = {}
     for j in range(nd):
         k = rng.choice([0, 1, 2, 2, 3, 3, 4]) if j else rng.choice([2, 3])
-        rps = rng.sample(RELPATHS, k)
+        rps = rng.sample(RELPATHS + ODD_RELPATHS if rng.random() < 0.3 else RELPATHS, k)
         dirs[f"D{j}"] = [[rp, f"F{rng.randrange(NF)}"] for rp in rps]
     # distinct listings only (equal listings are the same object)
     seen, out = set(), {}
@@ -233,10 +258,36 @@ def spy(odb, ctx):
     odb._list_oids_traverse = trav
 
 
-def his(names, W):
+def his(names, W, labels=None):
+    """the queried identifiers; labels: position -> obj_name (HashInfo equality ignores obj_name,
+    DVC sets it on file and directory ids alike)"""
     from dvc_data.hashfile.hash_info import HashInfo
 
-    return [HashInfo("md5", W.oid[n]) for n in names]
+    labels = labels or {}
+    return [HashInfo("md5", W.oid[n], obj_name=labels.get(str(i))) for i, n in enumerate(names)]
+
+
+def gen_labels(rng, q):
+    return {str(i): f"data/{n.lower()}{'' if n.startswith('D') else '.bin'}" for i, n in enumerate(q)
+            if rng.random() < 0.5}
+
+
+def label_problems(requested, result_sets):
+    """every HashInfo handed back for a requested value carries the algorithm name it was queried
+    under (partition membership by value + name; obj_name is a label that HashInfo equality ignores:
+    in expanding mode the entry of a listing - without label - may replace the labelled request)"""
+    want = {}
+    for h in requested:
+        want.setdefault(h.value, set()).add(h.name)
+    bad = []
+    for rs in result_sets:
+        for h in rs:
+            if h.value in want and h.name not in want[h.value]:
+                bad.append((h.name, h.value))
+    if bad:
+        return [("C12:result-id-not-the-queried-one",
+                 f"identifiers handed back differ from the queried ones in their algorithm name: {sorted(bad)[:4]}")]
+    return []
 
 
 def vals(s):
@@ -321,6 +372,9 @@ def gen_status_case(rng):
         case["cache"] = [d for d in dn if rng.random() < 0.7]
     case["lived"] = gen_lived(rng, store)
     case["ends"] = [rng.choice(HEX) for _ in range(NF)]
+    case["labels"] = gen_labels(rng, q)
+    case["jobs"] = rng.choice([None, 1, 2, 16])
+    case["name"] = rng.choice([None, "md5"])
     r = rng.random()
     if r < 0.35:
         case["index"] = None
@@ -439,10 +493,13 @@ def run_status_case(ctx, case, real_ids=False):
         fill_index(index, W, case["index"])
         ix_before = read_index(index)
     before = impl.walk_store(path)
+    req = his(case["q"], W, case.get("labels"))
+    lab = []
     try:
-        r = status(odb, his(case["q"], W), index=index, cache_odb=cache_odb,
-                   shallow=case["shallow"], jobs=1)
+        r = status(odb, req, name=case.get("name"), index=index, cache_odb=cache_odb,
+                   shallow=case["shallow"], jobs=case.get("jobs", 1))
         res = ("ok", vals(r.exists), vals(r.missing))
+        lab = label_problems(req, [r.exists, r.missing])
     except FileNotFoundError:
         res = ("err", 2)
     except Exception as exc:  # noqa: BLE001
@@ -466,7 +523,7 @@ def run_status_case(ctx, case, real_ids=False):
         exp = vL([vN(0), vN(res[1] if res[0] == "err" else 99)])
 
     # ---- oracle
-    problems = []
+    problems = list(lab)
     ids = expected_ids(W, case["q"], case["shallow"], ld)
     present = set(before)
     if set(after) != present:
@@ -558,6 +615,8 @@ def gen_compare_case(rng):
     case["lived_src"] = gen_lived(rng, src)
     case["lived_dst"] = gen_lived(rng, dst)
     case["ends"] = [rng.choice(HEX) for _ in range(NF)]
+    case["labels"] = gen_labels(rng, q)
+    case["jobs"] = rng.choice([None, 1, 2, 16])
     case["unprot_src"] = [n for n in src if rng.random() < 0.3]
     case["unprot_dst"] = [n for n in dst if rng.random() < 0.3]
     return case
@@ -620,11 +679,14 @@ def run_compare_case(ctx, case, real_ids=False):
         dix = get_index(dst)
         fill_index(dix, W, case["dix"])
     sb, db = impl.walk_store(spath), impl.walk_store(dpath)
+    req = his(case["q"], W, case.get("labels"))
+    lab = []
     try:
-        r = compare_status(src, dst, his(case["q"], W), check_deleted=case["check_deleted"],
-                           src_index=six, dest_index=dix, cache_odb=cache_odb, jobs=1,
+        r = compare_status(src, dst, req, check_deleted=case["check_deleted"],
+                           src_index=six, dest_index=dix, cache_odb=cache_odb, jobs=case.get("jobs", 1),
                            shallow=case["shallow"])
         res = ("ok", vals(r.ok), vals(r.missing), vals(r.new), vals(r.deleted))
+        lab = label_problems(req, [r.ok, r.missing, r.new, r.deleted])
     except FileNotFoundError:
         res = ("err", 2)
     except Exception as exc:  # noqa: BLE001
@@ -650,7 +712,7 @@ def run_compare_case(ctx, case, real_ids=False):
     else:
         exp = vL([vN(0), vN(res[1] if res[0] == "err" else 99)])
 
-    problems = []
+    problems = list(lab)
     ids_d = expected_ids(W, case["q"], case["shallow"], ld_d)
     ids_s = expected_ids(W, case["q"], case["shallow"], src_dirs)
     S, D = set(sb), set(db)
@@ -745,6 +807,9 @@ def gen_history_case(rng, max_ops, closed=True):
         else:
             q = rng.sample(universe + ["A0"], rng.randint(1, 6))
             ops.append({"op": "query", "q": q, "shallow": rng.random() < 0.6})
+    for o in ops:
+        if rng.random() < 0.2:
+            o["reopen"] = True  # the operation runs with a NEW ObjectDBIndex instance on the same directory
     return {"kind": "history", "dirs": dirs, "src": src, "remote": remote, "ops": ops,
             "closed": closed, "cls": rng.choice(["base", "local"]),
             "strategy": rng.choice(["default", "default", "zz", "always-traverse"])}
@@ -810,6 +875,10 @@ def run_history_case(ctx, case):
         return c_oids([ren(W.oid[n]) for n in ns])
 
     for k, op in enumerate(case["ops"]):
+        if op.get("reopen"):
+            index.close()
+            index = get_index(remote)
+            dim("history: operation through a re-opened index instance")
         before = listing
         ix_b = read_index(index)
         kind = op["op"]
@@ -837,7 +906,7 @@ def run_history_case(ctx, case):
                     deleted_any = True
             out = vL([vN(3)])
             ops_terms.append(f"ExtDelete {names(dn)}")
-            resolved_ops.append({"op": "delete", "names": dn})
+            resolved_ops.append(dict({"op": "delete", "names": dn}, **({"reopen": True} if op.get("reopen") else {})))
         else:
             cap = {}
             push = kind == "push"
@@ -964,6 +1033,305 @@ def shrink_history(ctx, case, signature):
 # --------------------------------------------------------------------------------------
 
 
+# --------------------------------------------------------------------------------------
+# fixed cases of every run (tools/COVERAGE_AUDIT.md) - inside the model: they go through the same
+# runners, oracles and Coq correspondence as the generated ones
+
+
+def fixed_status_cases():
+    odd = {"D0": [[rp, f"F{i % NF}"] for i, rp in enumerate(ODD_RELPATHS)],   # every unusual name in one listing
+           "D1": [],                                                        # the EMPTY listing's oid
+           "D2": [["only", "F2"]],                                          # one file (zero-length for ends[2] = e)
+           "D3": [["p/q/r/one", "F1"], ["p/q/r/two", "F1"], ["twin", "F1"]]}  # depth >= 3, identical contents
+    ends = ["9", "2", "e", "5", "1", "8"]
+    out = []
+    for cls in ("local", "base"):
+        for shallow in (True, False):
+            for index in (None, [], [["D1", True], ["D0", True], ["F0", False]]):
+                out.append({"kind": "status", "fixed": "names-shapes", "dirs": odd, "ends": ends,
+                            "store": ["D0", "D1", "D2", "F0", "F1", "F2", "F3"], "unprot": ["D0", "F1"],
+                            "q": ["D0", "D1", "D2", "D3", "F2", "F5", "A0"], "shallow": shallow, "cls": cls,
+                            "strategy": "zz" if shallow else "default", "index": index,
+                            "cache": ["D0", "D1", "D2", "D3"], "jobs": 2, "name": "md5",
+                            "labels": {"0": "data/odd", "1": "data/empty", "4": "data/zero.bin"}})
+    # batch boundary of the per-id existence query: jobs = 2 with 1..5 queried ids (per-id strategy: zz)
+    for n in range(1, 6):
+        out.append({"kind": "status", "fixed": "batch-boundary", "dirs": {"D0": [["a", "F0"]]}, "ends": ends,
+                    "store": ["F0", "F2", "F4"], "unprot": [], "q": [f"F{i}" for i in range(n)], "shallow": True,
+                    "cls": "base", "strategy": "zz", "index": None, "jobs": 2, "name": None})
+    return out
+
+
+def compare_flag_sweep():
+    """every combination of check_deleted x src_index x dest_index x shallow on one fixed pair of stores
+    (a directory that is new, the empty directory on both sides, deleted / missing / new files)"""
+    dirs = {"D0": [["a", "F0"], ["b/c", "F1"]], "D1": [], "D2": [["k", "F2"], ["we\\ird.txt", "F4"]]}
+    ix_s = [["D0", True], ["F0", False], ["F1", False]]
+    ix_d = [["D2", True], ["F2", False], ["F4", False], ["D1", True]]   # D2 is NOT in dst: stale
+    out = []
+    for cd in (False, True):
+        for six in (None, ix_s):
+            for dix in (None, ix_d):
+                for shallow in (True, False):
+                    out.append({"kind": "compare", "fixed": "flag-sweep", "dirs": dirs,
+                                "ends": ["0", "d", "e", "7", "a", "c"],
+                                "src": ["D0", "D1", "D2", "F0", "F1", "F2", "F4"], "dst": ["D0", "D1", "F0", "F3", "F4"],
+                                "q": ["D0", "D1", "D2", "F3", "F5", "A0"], "shallow": shallow, "check_deleted": cd,
+                                "cls": "local" if shallow else "base", "strategy": "default", "six": six, "dix": dix,
+                                "labels": {"0": "data/d0", "3": "data/f3.bin"}, "jobs": 4,
+                                "unprot_src": ["F1", "D2"], "unprot_dst": ["F3"]})
+    return out
+
+
+# --------------------------------------------------------------------------------------
+# audit stream (tools/COVERAGE_AUDIT.md): fixed scenarios OUTSIDE the model's assumptions (corrupt and
+# unparsable objects, read-only stores, ids of another algorithm, the no-op index, a fault inside the
+# existence query).  Judged by the oracle only, in the form the property supports there:
+#   - if the call returns, exists/missing (ok/new/deleted/missing) partition the queried VALUES,
+#     every queried id of an INTACT object that is in the store is reported existing, every id that is
+#     in no form in the store is reported missing, and no intact object has vanished from the store;
+#   - a call that cannot load / parse a directory object it needs, or whose existence query fails,
+#     may raise instead (the exception class is recorded).
+
+
+def _audit_world():
+    from dvc_data.hashfile.hash_info import HashInfo
+
+    fa, fb, fg, fd = b"alpha", b"beta", b"gamma\n", b"delta\r\n"
+    o = {n: impl.md5hex(b) for n, b in (("a", fa), ("b", fb), ("g", fg), ("d", fd), ("absent", b"absent-0"))}
+    data = {"a": fa, "b": fb, "g": fg, "d": fd}
+    lst = [("x", o["a"]), ("we\\ird/\u043a\u0438\u0440.txt", o["b"])]
+    o["D"] = impl.dir_oid(lst)
+    data["D"] = impl.canon_listing(lst)
+    o["E"] = impl.dir_oid([])
+    data["E"] = impl.canon_listing([])
+    for tag, raw in (("Unotjson", b"{{{"), ("Unotlist", b'{"a": 1}'), ("Ubadentry", b'[{"x": 1}]')):
+        o[tag] = impl.md5hex(raw) + ".dir"      # hash-consistent, but not a listing
+        data[tag] = raw
+    return o, data, (lambda n, alg="md5", label=None: HashInfo(alg, o[n], obj_name=label))
+
+
+def _audit_store(ctx, cls, root, sub, planted, fs=None, **kw):
+    """planted: name -> (bytes, mode)"""
+    from dvc_objects.fs.local import LocalFileSystem
+
+    from dvc_data.hashfile.db import HashFileDB
+    from dvc_data.hashfile.db.local import LocalHashFileDB
+
+    path = os.path.join(root, sub)
+    os.makedirs(path, exist_ok=True)
+    for oid, (raw, mode) in planted.items():
+        impl.plant(path, oid, raw, mode=mode)
+    k = LocalHashFileDB if cls == "local" else HashFileDB
+    return k(fs or LocalFileSystem(), os.path.abspath(path), tmp_dir=os.path.join(root, sub + "-tmp"), **kw), path
+
+
+def run_audit(ctx):  # noqa: C901, PLR0912, PLR0915
+    from dvc_objects.fs.local import FsspecLocalFileSystem, LocalFileSystem
+
+    from dvc_data.hashfile.db import get_index
+    from dvc_data.hashfile.db.index import ObjectDBIndexNoop
+    from dvc_data.hashfile.status import compare_status, status
+
+    o, data, hi = _audit_world()
+    n_cases = 0
+    observations = ctx.extra.setdefault("observations", {})
+
+    def judge(tag, case, res, queried, intact_present, absent, store_path, must_keep):
+        """res: ("ok", exists, missing) | ("exc", class)"""
+        nonlocal n_cases
+        n_cases += 1
+        ctx.case(dict(case, kind="audit", scenario=tag), True)
+        dim("audit: " + tag.split("/")[0])
+        if res[0] == "exc":
+            dim(f"audit: raised {res[1]}")
+            if not case.get("may_raise"):
+                ctx.oracle_fail(f"C12:audit:unexpected-exception:{res[1]}",
+                                f"{tag}: status raised {res[1]} although every object it needs is loadable", case)
+            return
+        ex, mi = set(res[1]), set(res[2])
+        what = []
+        if ex & mi or (ex | mi) != set(queried):
+            what.append(f"exists/missing do not partition the queried values (both {sorted(ex & mi)}, "
+                        f"lost {sorted(set(queried) - ex - mi)}, extra {sorted((ex | mi) - set(queried))})")
+        if not set(intact_present) <= ex:
+            what.append(f"intact objects that are in the store reported missing: {sorted(set(intact_present) - ex)}")
+        if set(absent) & ex:
+            what.append(f"ids that are not in the store reported existing: {sorted(set(absent) & ex)}")
+        now = set(impl.walk_store(store_path))
+        if not set(must_keep) <= now:
+            what.append(f"intact objects vanished from the store: {sorted(set(must_keep) - now)}")
+        if what:
+            ctx.oracle_fail("C12:audit:" + tag.split("/")[0], f"{tag}: " + "; ".join(what), case)
+
+    def call_status(odb, ids, **kw):
+        try:
+            r = status(odb, ids, **kw)
+            return ("ok", [h.value for h in r.exists], [h.value for h in r.missing]), r
+        except Exception as exc:  # noqa: BLE001
+            return ("exc", type(exc).__name__), None
+
+    for cls in ("local", "base"):
+        # ---- 5. pre-existing state: protected / unprotected / corrupt-unprotected / corrupt-protected
+        root = ctx.fresh("au")
+        planted = {o["a"]: (data["a"], 0o444), o["b"]: (data["b"], None), o["g"]: (b"NOT gamma", None),
+                   o["d"]: (b"NOT delta", 0o444), o["D"]: (data["D"], None), o["E"]: (data["E"], 0o444)}
+        odb, path = _audit_store(ctx, cls, root, "s", planted)
+        q = ["a", "b", "g", "d", "D", "E", "absent"]
+        case = {"cls": cls, "store": {k: "intact/prot" if k in "aE" else "intact/unprot" if k in "bD" else
+                                      "corrupt/unprot" if k == "g" else "corrupt/prot" for k in "abgdDE"}, "q": q}
+        res, _ = call_status(odb, [hi(n) for n in q], jobs=2)
+        judge("object-states/shallow", case, res, [o[n] for n in q], [o[n] for n in ("a", "b", "D", "E")],
+              [o["absent"]], path, [o[n] for n in ("a", "b", "D", "E")])
+        impl.rm_rf(root)
+
+        # ---- unparsable directory objects: existence only (shallow, no index); needed (expanded / index)
+        for u in ("Unotjson", "Unotlist", "Ubadentry"):
+            for mode in ("shallow", "expanded", "shallow+index"):
+                root = ctx.fresh("au")
+                odb, path = _audit_store(ctx, cls, root, "s", {o[u]: (data[u], 0o444), o["a"]: (data["a"], 0o444)})
+                ix = get_index(odb) if mode == "shallow+index" else None
+                case = {"cls": cls, "dir_object": u[1:], "mode": mode, "may_raise": mode != "shallow"}
+                res, _ = call_status(odb, [hi(u), hi("a"), hi("absent")], shallow=mode != "expanded", index=ix)
+                if ix is not None:
+                    ix.close()
+                judge(f"unparsable-dir/{u[1:]}/{mode}", case, res, [o[u], o["a"], o["absent"]], [o[u], o["a"]],
+                      [o["absent"]], path, [o[u], o["a"]])
+                impl.rm_rf(root)
+
+        # ---- read-only store (consumer side)
+        root = ctx.fresh("au")
+        odb, path = _audit_store(ctx, cls, root, "s", {o["a"]: (data["a"], None), o["D"]: (data["D"], 0o444),
+                                                       o["b"]: (data["b"], 0o444)}, read_only=True)
+        for shallow in (True, False):
+            res, _ = call_status(odb, [hi("a"), hi("D"), hi("g")], shallow=shallow)
+            want = [o["a"], o["D"], o["g"]] + ([] if shallow else [o["b"]])
+            judge("read-only-store/" + ("shallow" if shallow else "expanded"), {"cls": cls, "read_only": True}, res,
+                  sorted(set(want)), [o["a"], o["D"]] + ([] if shallow else [o["b"]]), [o["g"]], path,
+                  [o["a"], o["D"], o["b"]])
+        impl.rm_rf(root)
+
+        # ---- the no-op index class (a remote that is not indexed).  With ANY index object status assumes
+        # that a directory object which is present has its files (the store is closed: b is there)
+        root = ctx.fresh("au")
+        odb, path = _audit_store(ctx, cls, root, "s", {o["a"]: (data["a"], 0o444), o["D"]: (data["D"], 0o444),
+                                                       o["b"]: (data["b"], None)})
+        for shallow in (True, False):
+            res, _ = call_status(odb, [hi("D"), hi("b"), hi("a"), hi("g")], shallow=shallow,
+                                 index=ObjectDBIndexNoop("x", "y"))
+            judge("noop-index/" + ("shallow" if shallow else "expanded"), {"cls": cls, "index": "ObjectDBIndexNoop"},
+                  res, [o["D"], o["b"], o["a"], o["g"]], [o["D"], o["a"], o["b"]], [o["g"]], path,
+                  [o["a"], o["D"], o["b"]])
+        impl.rm_rf(root)
+
+        # ---- 3. identifiers: the same value under two algorithm names; a foreign algorithm name
+        root = ctx.fresh("au")
+        odb, path = _audit_store(ctx, cls, root, "s", {o["a"]: (data["a"], 0o444)})
+        ids = [hi("a", "md5", "x"), hi("a", "md5-dos2unix", "x"), hi("b", "sha256")]
+        res, r = call_status(odb, ids)
+        case = {"cls": cls, "q": [[h.name, h.value, h.obj_name] for h in ids], "store": [o["a"]]}
+        judge("two-algorithm-names/same-value", case, res, [o["a"], o["b"]], [o["a"]], [o["b"]], path, [o["a"]])
+        if r is not None:
+            got = {(h.name, h.value) for h in r.exists | r.missing}
+            lost = sorted({(h.name, h.value) for h in ids} - got)
+            if lost:
+                # status() keys the queried ids by VALUE: of two ids with one value and different algorithm
+                # names only the last is handed back.  Outside the property's reading of "identifier" in one
+                # store (one algorithm per store); recorded, and raised only if the lead lists it as known.
+                sig = "C12:audit:id-dropped:same-value-two-algorithm-names"
+                observations[sig] = {"queried": case["q"], "handed_back": sorted(got), "dropped": lost}
+                dim("audit: observed - id dropped when two algorithm names share a value")
+                if sig in ctx.known:
+                    ctx.oracle_fail(sig, f"queried {case['q']}; {lost} is in neither exists nor missing", case)
+        impl.rm_rf(root)
+
+    # ---- compare_status: a directory object fine on one side, unparsable / missing on the other
+    for dst_cls in ("local", "base"):
+        for where in ("src", "dst"):
+            for how in ("unparsable", "missing"):
+                for shallow in (True, False):
+                    for cd in (True, False):
+                        root = ctx.fresh("au")
+                        good = {o["D"]: (data["D"], 0o444), o["a"]: (data["a"], 0o444)}
+                        bad = {o["a"]: (data["a"], 0o444)}
+                        if how == "unparsable":
+                            bad[o["D"]] = (b"{{{ not a listing", 0o444)   # protected: trusted by a local store
+                        sp = good if where == "dst" else bad
+                        dp = bad if where == "dst" else good
+                        src, spath = _audit_store(ctx, "local", root, "src", sp)
+                        dst, dpath = _audit_store(ctx, dst_cls, root, "dst", dp)
+                        case = {"dst_cls": dst_cls, "directory": f"{how} in {where}", "shallow": shallow,
+                                "check_deleted": cd,
+                                # trees are loaded from cache_odb = src: expansion needs src's copy
+                                "may_raise": (not shallow) and where == "src"}
+                        n_cases += 1
+                        ctx.case(dict(case, kind="audit", scenario="compare-dir-asymmetric"), True)
+                        dim("audit: compare-dir-asymmetric")
+                        ids = [hi("D", label="data"), hi("a"), hi("b")]
+                        try:
+                            r = compare_status(src, dst, ids, check_deleted=cd, shallow=shallow)
+                        except Exception as exc:  # noqa: BLE001
+                            dim(f"audit: raised {type(exc).__name__}")
+                            if not case["may_raise"]:
+                                ctx.oracle_fail(f"C12:audit:unexpected-exception:{type(exc).__name__}",
+                                                f"compare_status raised {type(exc).__name__}", case)
+                            impl.rm_rf(root)
+                            continue
+                        S, Dd = set(impl.walk_store(spath)) | set(sp), set(dp)
+                        qv = {o["D"], o["a"], o["b"]} | (set() if shallow else {o["a"], o["b"]})
+                        got = {k: {h.value for h in getattr(r, k)} for k in ("ok", "missing", "new", "deleted")}
+                        if (not cd) and qv <= Dd:
+                            want = {"ok": qv, "missing": set(), "new": set(), "deleted": set()}
+                        else:
+                            want = {"ok": qv & S & Dd, "missing": qv - S - Dd, "new": (qv & S) - Dd,
+                                    "deleted": (qv & Dd) - S}
+                        if got != want:
+                            ctx.oracle_fail("C12:audit:compare-dir-asymmetric",
+                                            f"got { {k: sorted(v) for k, v in got.items()} }, membership says "
+                                            f"{ {k: sorted(v) for k, v in want.items()} }", case)
+                        impl.rm_rf(root)
+
+    # ---- 7. a fault inside the existence query of one batch (per-id strategy), at each position
+    class FaultyExists(FsspecLocalFileSystem):
+        bad = None
+
+        def exists(self, path, **kw):
+            if self.bad and self.bad in str(path):
+                raise OSError(errno.EIO, "injected fault in the existence query")
+            return super().exists(path, **kw)
+
+    zz = {impl.md5hex(b): (b, 0o444) for b in ZZ}
+    names = ["a", "b", "g", "absent"]
+    for pos, victim in (("first", "a"), ("middle", "b"), ("last", "absent")):
+        for jobs in (1, 2):
+            root = ctx.fresh("au")
+            ffs = FaultyExists(skip_instance_cache=True)
+            planted = dict(zz)
+            planted.update({o[n]: (data[n], 0o444) for n in ("a", "b", "g")})
+            odb, path = _audit_store(ctx, "base", root, "s", planted, fs=LocalFileSystem(fs=ffs))
+            ffs.bad = o[victim][2:]
+            res, _ = call_status(odb, [hi(n) for n in names], jobs=jobs)
+            case = {"cls": "base", "strategy": "per-id exists (00-objects planted)", "fault": f"EIO on the {pos} id",
+                    "jobs": jobs, "may_raise": True}
+            others = [n for n in names if n != victim]
+            n_cases += 1
+            ctx.case(dict(case, kind="audit", scenario="fault-in-existence-query"), True)
+            dim("audit: fault-in-existence-query")
+            if res[0] == "exc":
+                dim(f"audit: raised {res[1]}")
+            else:
+                ex = set(res[1])
+                wrong = [n for n in others if (o[n] in ex) != (n != "absent")]
+                if wrong:
+                    ctx.oracle_fail("C12:audit:fault-in-existence-query",
+                                    f"a fault on one id changed the answer for other ids {wrong}", case)
+                if victim != "absent" and o[victim] not in ex:
+                    observations["C12:audit:fault-swallowed-reported-missing"] = case
+            impl.rm_rf(root)
+    ctx.obligation("oracle:audit-dimensions", not any(v.signature.startswith("C12:audit") for v in ctx.violations),
+                   f"{n_cases} fixed scenarios outside the model's assumptions (COVERAGE_AUDIT.md), judged by the oracle")
+
+
 def load_corpus():
     d = os.path.join(os.path.dirname(os.path.dirname(os.path.dirname(os.path.abspath(__file__)))),
                      "corpus", PROPERTY)
@@ -979,22 +1347,88 @@ def load_corpus():
 RUNNERS = {"status": run_status_case, "compare": run_compare_case}
 
 
+def record_dimensions(st_cases, cmp_cases, h_cases):
+    """tools/COVERAGE_AUDIT.md: dimension -> number of cases of this run that had it"""
+    odd = set(ODD_RELPATHS)
+
+    def names_dims(c):
+        rps = {e[0] for ents in c["dirs"].values() for e in ents}
+        if rps & odd:
+            dim("names: unusual entry names inside a listing")
+        if {"caf\u00e9.txt", "cafe\u0301.txt"} <= rps:
+            dim("names: NFC next to its NFD twin in one listing")
+        if any(len(r) >= 200 for r in rps):
+            dim("names: 200-character entry name")
+
+    for c in st_cases:
+        names_dims(c)
+        qd = [n for n in c["q"] if n.startswith("D")]
+        if any(c["dirs"].get(n) == [] for n in qd):
+            dim("ids: the EMPTY listing's oid queried")
+        if any(len({f for _, f in c["dirs"].get(n, [])}) < len(c["dirs"].get(n, [])) for n in c["dirs"]):
+            dim("shapes: identical contents twice in one directory")
+        if c.get("labels"):
+            dim("ids: obj_name labels on queried ids")
+            if any(c["q"][int(i)].startswith("D") for i in c["labels"] if int(i) < len(c["q"])):
+                dim("ids: obj_name label on a directory id")
+        dim(f"status: jobs={c.get('jobs', 1)}")
+        dim("status: name=" + ("explicit" if c.get("name") else "None"))
+        ix = c.get("index")
+        dim("status: index " + ("none" if ix is None else "empty" if not ix else "pre-filled (stale/partial possible)"))
+        dim("status: " + ("shallow" if c["shallow"] else "expanded"))
+        dim("status: cache_odb " + ("separate" if c.get("cache") is not None else "the store itself"))
+        dim(f"stores: class={c['cls']}, lookup={c['strategy']}")
+        if c["cls"] == "local" and set(c.get("unprot", ())) & set(c["store"]):
+            dim("state: valid UNPROTECTED object in a local store")
+        if c.get("lived"):
+            dim("route: long-lived handle + second writer")
+        if c.get("sweep"):
+            dim("ids: last-hex-digit sweep (file and .dir ids)")
+        if len(c["q"]) != len(set(c["q"])):
+            dim("ids: the same id twice in one request")
+        if ix and any(n not in c["store"] for n, f in ix if f):
+            dim("index: stale (lists a directory that is not in the store)")
+        if ix and any(f and any(fn not in [m for m, _ in ix] for _, fn in c["dirs"].get(n, [])) for n, f in ix):
+            dim("index: partial (a directory without all its files)")
+    for c in cmp_cases:
+        names_dims(c)
+        dim("compare: check_deleted=%s src_index=%s dest_index=%s shallow=%s"
+            % (c["check_deleted"], c["six"] is not None, c["dix"] is not None, c["shallow"]))
+        dim(f"compare: dest class={c['cls']}")
+        if c.get("lived_src") or c.get("lived_dst"):
+            dim("route: long-lived handle + second writer")
+        for d in [n for n in c["q"] if n.startswith("D")]:
+            if d in c["src"] and d not in c["dst"]:
+                dim("compare: queried directory object only in src")
+            if d in c["dst"] and d not in c["src"]:
+                dim("compare: queried directory object only in dst")
+    for c in h_cases:
+        names_dims(c)
+        kinds = [o["op"] for o in c["ops"]]
+        if "delete" in kinds and "push" in kinds[kinds.index("delete"):]:
+            dim("history: push after an external deletion (re-push)")
+        for o in c["ops"]:
+            for n in o.get("fails", ()):
+                dim("faults: upload " + o.get("kinds", {}).get(n, "eio") + (" on a .dir object" if n.startswith("D") else " on a file"))
+
+
 def run(ctx):
     rng = ctx.rng
+    DIMS.clear()
     corpus = load_corpus()
     st_cases = [c for c in corpus if c["kind"] == "status"]
     cmp_cases = [c for c in corpus if c["kind"] == "compare"]
     h_cases = [c for c in corpus if c["kind"] == "history"]
     ctx.count("corpus", len(corpus))
-    gen_st = [gen_status_case(rng) for _ in range(ctx.n(220, 2000))]
+    gen_st = [gen_status_case(rng) for _ in range(ctx.n(220, 1300))]
     digit_sweep(gen_st)
     for c in gen_st:
         if c.get("sweep"):
             ctx.count("status:sweep:" + c["sweep"].split("-")[0] + "-id-last-digit")
-    st_cases += gen_st
-    cmp_cases += [gen_compare_case(rng) for _ in range(ctx.n(120, 1000))]
+    st_cases += fixed_status_cases() + gen_st
+    cmp_cases += compare_flag_sweep() + [gen_compare_case(rng) for _ in range(ctx.n(120, 600))]
     max_ops = 10 if ctx.tier == "quick" else 30
-    for _ in range(ctx.n(70, 600)):
+    for _ in range(ctx.n(70, 400)):
         h_cases.append(gen_history_case(rng, max_ops, closed=rng.random() < 0.8))
 
     st_items, cmp_items, h_items = [], [], []
@@ -1034,6 +1468,10 @@ def run(ctx):
         h_items.append((rc, inp, exp))
     for k, v in agg.items():
         ctx.count("history-events:" + k, v)
+
+    run_audit(ctx)
+    record_dimensions(st_cases, cmp_cases, [it[0] for it in h_items])
+    ctx.extra["input_dimensions"] = dict(sorted(DIMS.items()))
 
     bad = [v for v in ctx.violations if v.kind == "oracle"]
     ctx.obligation("oracle:status-exact-and-partition", not any("status-" in v.signature or "error" in v.signature
